@@ -28,7 +28,7 @@ def gen_owner_records(rng, curie_pool, uri_pool, n):
         if not cp or not up:
             break
         d = {"prefix": cp.pop(), "uri_prefix": up.pop(), "prefix_synonyms": [], "uri_prefix_synonyms": [],
-             "pattern": None}
+             "pattern": rng.choice([None, None, "^\\d+$", "^[a-z]+$"])}
         for _ in range(rng.choice([0, 0, 1, 1, 2, 3])):
             if up:
                 d["uri_prefix_synonyms"].append(up.pop())
@@ -46,7 +46,7 @@ class C01Machine(Machine):
         "confluence_group", "chain_parts", "multi_char_delimiter", "non_bmp_probe_matched",
         "piece_carrier_canonical", "piece_carrier_synonym", "piece_carrier_via_uri",
         "bulk_via_ctor", "bulk_via_epm", "bulk_via_priority", "bulk_via_reverse", "large_owner_map", "derived_view_sub", "derived_view_chain_self", "derived_view_rewire", "derived_view_remap_uri",
-        "derived_view_remap_curie",
+        "derived_view_remap_curie", "record_with_pattern", "piece_with_pattern", "more_than_256_uri_prefixes",
     ]
 
     @classmethod
@@ -69,7 +69,16 @@ class C01Machine(Machine):
             "p_add_prefix": rng.choice([0.2, 0.5, 0.8]),
             "p_chain_parts": rng.choice([0.0, 0.0, 0.2]),
         }
-        if large:
+        huge = large and rng.random() < 0.05      # past 256 records / URI prefixes
+        cfg["huge"] = huge
+        if huge:
+            cfg["n_records"] = rng.choice([257, 258, 300])
+            cfg["curie_pool"] = cfg["curie_pool"] + tokens.synthetic_curie_prefixes(340)
+            cfg["uri_pool"] = cfg["uri_pool"] + tokens.synthetic_uri_prefixes(rng.randint(620, 720))
+            cfg["n_schedules"] = 1
+            cfg["p_ctor_first"] = 0.7
+            cfg["max_ops"] = 1400
+        elif large:
             cfg["curie_pool"] = cfg["curie_pool"] + tokens.synthetic_curie_prefixes(70)
             cfg["uri_pool"] = cfg["uri_pool"] + tokens.synthetic_uri_prefixes(rng.randint(60, 110))
             cfg["n_schedules"] = 1 if rng.random() < 0.7 else 2
@@ -85,7 +94,11 @@ class C01Machine(Machine):
         self.owners = OwnerMap()
         self.delivered = []       # record dumps delivered so far (whole or in part)
         self.finals = []          # final answers per schedule
-        if config.get("large"):
+        if config.get("huge"):
+            up = config["uri_pool"]
+            nb = max(0, len(up) - 620)
+            self.probes = tokens.uri_probes(up[:nb] + up[nb::9], extra_tails=("1",), alphabet=("a",))
+        elif config.get("large"):
             self.probes = tokens.uri_probes(config["uri_pool"], extra_tails=("1",), alphabet=("a", "/"))
         else:
             self.probes = tokens.uri_probes(config["uri_pool"])
@@ -126,6 +139,8 @@ class C01Machine(Machine):
         n_first = 0
         if rng.random() < cfg["p_ctor_first"]:
             n_first = rng.randint(0, len(recs))
+        if cfg.get("huge"):
+            n_first = max(n_first, len(recs) - rng.randint(3, 40))
         first = recs[:n_first]
         # the bulk part may also arrive through a loader ("supplied" covers every way records get in)
         via = rng.choice(["ctor", "ctor", "epm", "priority", "reverse"])
@@ -151,7 +166,7 @@ class C01Machine(Machine):
                     if carrier == "synonym" and not r["prefix_synonyms"]:
                         carrier = "canonical"
                     later.append({"op": "merge_piece", "prefix": r["prefix"], "uri_prefix": u, "schedule": k,
-                                  "carrier": carrier,
+                                  "carrier": carrier, "pattern": rng.choice([None, None, r.get("pattern"), "^x$"]),
                                   "carrier_prefix": r["prefix_synonyms"][0] if carrier == "synonym" else None,
                                   "anchor_uri": r["uri_prefix"],
                                   "via": "add_prefix" if rng.random() < 0.5 else "add_record"})
@@ -393,6 +408,8 @@ class C01Machine(Machine):
             if kind in ("add_record", "add_prefix"):
                 r = op["record"]
                 site = "Converter." + kind
+                if r.get("pattern") and kind == "add_record":
+                    self.probe("record_with_pattern")
                 if kind == "add_record":
                     conv.add_record(Record(**r))
                 else:
@@ -420,7 +437,10 @@ class C01Machine(Machine):
                     pr, up, ups = op["prefix"], op["uri_prefix"], []
                 self.probe("piece_carrier_" + carrier)
                 if op["via"] == "add_record":
-                    conv.add_record(Record(prefix=pr, uri_prefix=up, uri_prefix_synonyms=ups), merge=True)
+                    conv.add_record(Record(prefix=pr, uri_prefix=up, uri_prefix_synonyms=ups, pattern=op.get("pattern")),
+                                    merge=True)
+                    if op.get("pattern"):
+                        self.probe("piece_with_pattern")
                 else:
                     conv.add_prefix(pr, up, uri_prefix_synonyms=ups, merge=True)
                 self.owners.register(op["uri_prefix"], op["prefix"])
@@ -483,6 +503,8 @@ class C01Machine(Machine):
         owners = self.owners
         if len(owners.owners) >= 40:
             self.probe("large_owner_map")
+        if len(owners.owners) > 256:
+            self.probe("more_than_256_uri_prefixes")
         delim = conv.delimiter
         if len(delim) > 1:
             self.probe("multi_char_delimiter")
